@@ -19,7 +19,7 @@ ID = "C19"
 
 RULE = (
     "states = (grid family in {make_grid log, lambert, linear on [0.05,1]} x degree x kind x process x scheme x PTO); per state runs on coarse/medium/fine grids (and fine with degree+1) at the x lattice "
-    "{1e-3,0.01,0.1,0.3,0.6,0.8} (linear: x>=0.1) + second-to-last coarse node and its (1±1e-9), (1+1e-6) neighbours + mid-points of the last two coarse areas; per-order predictions for 3 smooth PDFs; "
+    "{1e-3,0.01,0.1,0.3,0.6,0.8} (linear: x>=0.1) + second-to-last coarse node and its (1±1e-9), (1+1e-6) neighbours + mid-points of the last two coarse areas + the smallest node x_min (shared by all grids of a family) and its (1+1e-9), (1+1e-6) neighbours; per-order predictions for 3 smooth PDFs; "
     "sup-norm error bounds as stated in the module docstring; non-trivial = E_coarse > 1e-7 (the grids really differ in accuracy) and the prediction is non-zero"
 )
 ASSUMPTIONS = [
@@ -132,7 +132,11 @@ def execute(st):
     node = coarse[-2]  # second-to-last node: its (1+eps) neighbours lie in the last area of the coarse grid
     node_pts = [node, node * (1 - 1e-9), node * (1 + 1e-9), node * (1 + 1e-6)]
     tops = [0.5 * (coarse[-2] + coarse[-1]), 0.5 * (coarse[-3] + coarse[-2])]
-    allx = xs + node_pts + tops
+    xmin = coarse[0]  # the smallest node is shared by every grid of the family: a legal request (x = x_min) on each of them
+    assert all(g[0] == xmin for g, _ in grids)
+    xmin_pts = [xmin, xmin * (1 + 1e-9), xmin * (1 + 1e-6)]
+    allx = xs + node_pts + tops + xmin_pts
+    i_xmin = len(allx) - 3
     name = cards.obsname(st["kind"], st["heavyness"])
     Q2 = 30.0
     outs = []
@@ -157,7 +161,7 @@ def execute(st):
                 continue
             den = sabs + 0.01 * scale
             idx_bulk = list(range(len(xs)))  # bulk lattice (a coarse-grid node is accidentally exact on the coarse grid at LO: used for continuity only)
-            idx_all = idx_bulk + list(range(len(xs) + 4, len(allx)))  # + top-area mid-points (convergence only: a coarse grid is not 'adequate' in its own last area)
+            idx_all = idx_bulk + list(range(len(xs) + 4, len(xs) + 4 + len(tops)))  # + top-area mid-points (convergence only: a coarse grid is not 'adequate' in its own last area)
             E = [float(np.max(np.abs(np.array(P[k])[idx_bulk] - fine[idx_bulk]) / den[idx_bulk])) for k in (0, 1)]
             Eall = [float(np.max(np.abs(np.array(P[k])[idx_all] - fine[idx_all]) / den[idx_all])) for k in (0, 1)]
             Edeg = float(np.max(np.abs(np.array(P[3])[idx_bulk] - fine[idx_bulk]) / den[idx_bulk]))
@@ -197,6 +201,17 @@ def execute(st):
                     info[f"cont_{nm}"] = max(info.get(f"cont_{nm}", 0.0), dd)
                     if dd > lim:
                         viol.append(_v(st, "node-continuity", f"{desc}: value at the {lab}-grid node x={node} is {pn:.10g} but at {nm} it is {P[k][len(xs)+j]:.10g} (rel {dd:.2e})"))
+            # continuity at the smallest node, on every grid (it is a node of all of them)
+            for k, lab in ((0, "coarse"), (1, "medium"), (2, "fine"), (3, "fine/degree+1")):
+                pn = P[k][i_xmin]
+                sc = sabs[i_xmin] + 0.01 * scale
+                qerr = [_predict(outs[k][0], name, outs[k][1], i_xmin + j, pdf, o, part=1) for j in range(3)]
+                for j, lim, nm in ((1, LIM["node9"], "xmin(1+1e-9)"), (2, LIM["node6"], "xmin(1+1e-6)")):
+                    dd = max(0.0, abs(P[k][i_xmin + j] - pn) - 10.0 * (qerr[0] + qerr[j])) / sc
+                    info[f"cont_{nm}"] = max(info.get(f"cont_{nm}", 0.0), dd)
+                    if dd > lim:
+                        viol.append(_v(st, "xmin-continuity", f"{desc}: value at the smallest node x={xmin} of the {lab} grid is {pn:.10g} but at {nm} it is {P[k][i_xmin+j]:.10g} (rel {dd:.2e})"))
+            info[f"Exmin_{tag}"] = max(info.get(f"Exmin_{tag}", 0.0), float(abs(P[1][i_xmin] - fine[i_xmin]) / den[i_xmin]))
     seen, uv = set(), []
     for v_ in viol:
         kk = digest([v_["fpkey"], v_["msg"][:40]])
